@@ -4,6 +4,7 @@ import Req.Pool.Tls
 import Req.Pool.TlsFamily
 import Req.Pool.TlsPaths
 import Req.Pool.TlsOrder
+import Req.Pool.AlpnSeq
 import Req.Pool.ProxyDispatch
 import Req.Pool.AltSvcState
 import Req.Pool.AltSvcClient
@@ -323,6 +324,47 @@ def laneAlpn : List String → String
     | _, _, _, _, _, _ => "bad-op"
   | _ => "bad-op"
 
+section alpnseq
+open Req.Pool.Alpn
+
+def pAOp (t : String) : Option AOp :=
+  if t == "pn" then some (.setProtos none)
+  else if t.startsWith "p:" then (pAlpns (t.drop 2).toString).map fun l => .setProtos (some l)
+  else if t == "uf" then some (.force none)
+  else if t == "f1" then some (.force (some .h1))
+  else if t == "f2" then some (.force (some .h2))
+  else if t == "f3" then some (.force (some .h3))
+  else if t == "e3" then some .enableH3
+  else if t == "fork" then some .fork
+  else if t.startsWith "sw" then (t.drop 2).toString.toNat?.map .switch
+  else if t == "r0" then some (.request false)
+  else if t == "r1" then some (.request true)
+  else none
+
+/-- `c12alpnseq <serverALPN> <h3Up> <ops>`: a family of clients (from `C()`) through setters,
+mode switches, `Clone` and requests (`Req.Pool.Alpn.astep`, the code's `assignNil`); every
+request makes a NEW connection to an origin whose certificate is trusted. Per request
+`offer=<list|none>;quic=<0|1>;route=<…>` (as lane `c12alpn`), comma separated. -/
+def laneAlpnSeq : List String → String
+  | [srvAlpn, h3Up, ops] =>
+    match pAlpns srvAlpn, pBool h3Up, (if ops == "-" then some [] else (ops.splitOn ",").mapM pAOp) with
+    | some sa, some up, some os =>
+      let net : Net := ⟨sa, true, up, true, false, .fail, false, false, false⟩
+      let (_, out) := os.foldl (fun (acc : World × List String) op =>
+        let w := acc.1
+        let (w', o) := astep .assignNil w op
+        match op, o, w.members[w.cur]? with
+        | .request h1, some offer, some m =>
+          let cfg := cfgOf w.arrays m
+          let quic := m.force == some .h3
+          let offerS := if quic && !up then "none" else sAlpns offer
+          (w', acc.2 ++ [s!"offer={offerS};quic={if quic then 1 else 0};route={sRoute (route cfg ⟨.https, h1⟩ net)}"])
+        | _, _, _ => (w', acc.2)) (World.init, [])
+      if out.isEmpty then "-" else ",".intercalate out
+    | _, _, _ => "bad-op"
+  | _ => "bad-op"
+end alpnseq
+
 def pSetting : String → Option Setting
   | "f1" => some .forceH1
   | "f2" => some .forceH2
@@ -413,6 +455,7 @@ def lanes : List (String × (List String → String)) := [
   ("c12proxy", laneProxy),
   ("c12offer", laneOffer),
   ("c12alpn", laneAlpn),
+  ("c12alpnseq", laneAlpnSeq),
   ("c12altsm", laneAltSm)
 ]
 
